@@ -13,14 +13,25 @@ Local Open Scope N_scope.
 (** * Defect flags (DESIGN 3.3) *)
 Record Defects := mkDefects {
   d_rb_heightkey : bool;  (* removeChainDataOnBlock does not delete block-height-<h> *)
-  d_bhash_codec : bool    (* block-height-<h> holds the hex STRING of the hash, GetBlockHash
+  d_bhash_codec : bool;   (* block-height-<h> holds the hex STRING of the hash, GetBlockHash
                              decodes it as raw bytes: the result is not the block's hash *)
+  d_meta_del_first : bool; (* NOT a defect of the pinned tree: a rollback batch that deletes chain-meta
+                             and puts it again in the same batch (kept to show what the store kind
+                             does to such a batch) *)
+  c_ordered : bool        (* CONFIGURATION, not a defect: leveldb_type "normal" = ordered batches
+                             (true), "multi" = all Puts of a batch first, then all Deletes (false) *)
 }.
-Definition cfg_fixed : Defects := {| d_rb_heightkey := false; d_bhash_codec := false |}.
-Definition cfg_pinned : Defects := {| d_rb_heightkey := true; d_bhash_codec := true |}.   (* the tree as pinned *)
+Definition cfg_fixed : Defects :=
+  {| d_rb_heightkey := false; d_bhash_codec := false; d_meta_del_first := false; c_ordered := true |}.
+Definition cfg_fixed_multi : Defects :=
+  {| d_rb_heightkey := false; d_bhash_codec := false; d_meta_del_first := false; c_ordered := false |}.
+Definition cfg_pinned : Defects :=   (* the tree as pinned *)
+  {| d_rb_heightkey := true; d_bhash_codec := true; d_meta_del_first := false; c_ordered := true |}.
 (** flags of the findings still open in known_findings.d/C09.json: both defects were
     repaired in /repo ("fix:" commits), so a regression no longer matches any allowed cfg *)
-Definition cfg_current : Defects := {| d_rb_heightkey := false; d_bhash_codec := false |}.
+Definition cfg_current : Defects := cfg_fixed.
+(** the judge is told the store kind of the run; with the flags off it makes no difference
+    ([ChainLedgerProofs.store_kind_irrelevant]) *)
 Definition cfgs_allowed : list Defects := [cfg_current].
 
 (** * Data *)
@@ -115,6 +126,41 @@ Definition persist_index (memcount : N) (e : entry) (ix : index) : index :=
        (nset num (b_txs b) (ix_txset ix))
        (put_txmetas num (b_hash b) 0 (b_txs b) (ix_txmeta ix))
        (Some (new_meta memcount e)).
+
+(** * Storage batches.  A batch is the list of its operations in program order.  An ordered
+    store (goleveldb) applies them in order; the multi-layer store of bitxhub-kit applies all
+    Puts first and all Deletes afterwards.  The two agree on every batch in which no key is
+    both put and deleted ([ChainLedgerProofs.apply_kind_conflict_free]). *)
+Inductive kvop (V : Type) : Type := KPut (k : N) (v : V) | KDel (k : N).
+Arguments KPut {V} k v. Arguments KDel {V} k.
+Definition is_put {V} (o : kvop V) : bool := match o with KPut _ _ => true | KDel _ => false end.
+Definition is_del {V} (o : kvop V) : bool := negb (is_put o).
+Definition op_key {V} (o : kvop V) : N := match o with KPut k _ => k | KDel k => k end.
+Fixpoint apply_seq {V} (ops : list (kvop V)) (m : list (N * V)) : list (N * V) :=
+  match ops with
+  | [] => m
+  | KPut k v :: r => apply_seq r (nset k v m)
+  | KDel k :: r => apply_seq r (nremove k m)
+  end.
+Definition apply_kind {V} (ordered : bool) (ops : list (kvop V)) (m : list (N * V)) : list (N * V) :=
+  if ordered then apply_seq ops m
+  else apply_seq (filter is_del ops) (apply_seq (filter is_put ops) m).
+Definition conflict_free {V} (ops : list (kvop V)) : Prop :=
+  forall a b, In a ops -> In b ops -> is_put a = true -> is_del b = true -> op_key a <> op_key b.
+
+(** the operations PersistExecutionResult puts into its batch, per key family (all Puts) *)
+Fixpoint txmeta_puts (num bh i : N) (txs : list N) : list (kvop txmeta) :=
+  match txs with [] => [] | t :: r => KPut t (num, bh, i) :: txmeta_puts num bh (i + 1) r end.
+(** the operations one removeChainDataOnBlock puts into the rollback batch (all Deletes) *)
+Definition txmeta_dels (txs : list N) : list (kvop txmeta) := map (fun t => KDel t) txs.
+
+(** the chain-meta key: the one key of a rollback batch for which the code chooses between a
+    Put and a Delete.  Key 0 of a one-key family. *)
+Definition meta_ops (cfg : Defects) (t : N) (m : cmeta) : list (kvop cmeta) :=
+  if d_meta_del_first cfg then (if t =? 0 then [KDel 0] else [KDel 0; KPut 0 m])
+  else (if t =? 0 then [KDel 0] else [KPut 0 m]).
+Definition meta_after (cfg : Defects) (ops : list (kvop cmeta)) (cur : option cmeta) : option cmeta :=
+  nlookup 0 (apply_kind (c_ordered cfg) ops (match cur with Some m => [(0, m)] | None => [] end)).
 
 (** * State-ledger journal window (heights only), as far as [Ledger.Rollback] and
       [SimpleLedger.Commit] decide acceptance: on-disk minHeight, in-memory minJnlHeight,
@@ -262,14 +308,16 @@ Definition rollback_chain (cfg : Defects) (t : N) (s : cledger) : N * cledger :=
     | ((bf, _, _), false) => (3, mkCL bf (cl_ix s) (cl_mem s) (cl_jw s))
     | ((bf, ixb, cnt), true) =>
         if t =? 0 then
-          (0, mkCL bf (mkIx (ix_bhash ixb) (ix_height ixb) (ix_txset ixb) (ix_txmeta ixb) None)
+          (0, mkCL bf (mkIx (ix_bhash ixb) (ix_height ixb) (ix_txset ixb) (ix_txmeta ixb)
+                            (meta_after cfg (meta_ops cfg t meta0) (ix_meta ixb)))
                    meta0 (cl_jw s))
         else
           (* GetBlock(t,false) on the truncated blockfile and the committed index *)
           match tget (bf_bodies bf) t, nlookup t (ix_txset (cl_ix s)) with
           | Some (hd, bh), Some _ =>
               let m := mkMeta (h_number hd) bh cnt in
-              (0, mkCL bf (mkIx (ix_bhash ixb) (ix_height ixb) (ix_txset ixb) (ix_txmeta ixb) (Some m))
+              (0, mkCL bf (mkIx (ix_bhash ixb) (ix_height ixb) (ix_txset ixb) (ix_txmeta ixb)
+                                (meta_after cfg (meta_ops cfg t m) (ix_meta ixb)))
                        m (cl_jw s))
           | _, _ => (3, mkCL bf (cl_ix s) (cl_mem s) (cl_jw s))
           end
@@ -342,7 +390,9 @@ Record hobs := mkHobs {
   ho_rcpts : res (list N); ho_sign : res N }.
 Record tobs := mkTobs { to_tx : res N; to_meta : res txmeta; to_rcpt : res N }.
 Record obs := mkObs {
-  o_meta : cmeta; o_heights : list hobs; o_hashes : list (res block); o_txs : list tobs }.
+  o_meta : cmeta;        (* GetChainMeta: the cached chain meta *)
+  o_stored : cmeta;      (* LoadChainMeta: what a fresh process reads from the store *)
+  o_heights : list hobs; o_hashes : list (res block); o_txs : list tobs }.
 Record universe := mkU { u_kh : nat; u_hashes : list N; u_txs : list N }.
 
 Definition nseq (n : nat) : list N := map N.of_nat (seq 0 n).   (* 0 .. n-1 *)
@@ -353,7 +403,7 @@ Definition observe_h (cfg : Defects) (s : cledger) (h : N) : hobs :=
 Definition observe_t (s : cledger) (t : N) : tobs :=
   mkTobs (get_tx s t) (get_tx_meta s t) (get_receipt s t).
 Definition observe (cfg : Defects) (U : universe) (s : cledger) : obs :=
-  mkObs (get_chain_meta s)
+  mkObs (get_chain_meta s) (load_meta (cl_ix s))
         (map (observe_h cfg s) (nseq (S (u_kh U))))
         (map (fun x => get_block_by_hash s x true) (u_hashes U))
         (map (observe_t s) (u_txs U)).
@@ -397,7 +447,7 @@ Definition expected_t (sp : spec) (t : N) : tobs :=
   | None => mkTobs RNotFound RNotFound RNotFound
   end.
 Definition expected (U : universe) (sp : spec) : obs :=
-  mkObs (spec_meta sp) (map (expected_h sp) (nseq (S (u_kh U))))
+  mkObs (spec_meta sp) (spec_meta sp) (map (expected_h sp) (nseq (S (u_kh U))))
         (map (expected_x sp) (u_hashes U)) (map (expected_t sp) (u_txs U)).
 
 (** transaction lookups when a hash may occur more than once: any live occurrence is a right
@@ -432,7 +482,8 @@ Definition tobs_eqb (a b : tobs) : bool :=
   res_eqb N.eqb (to_tx a) (to_tx b) && res_eqb txmeta_eqb (to_meta a) (to_meta b)
   && res_eqb N.eqb (to_rcpt a) (to_rcpt b).
 Definition obs_eqb (a b : obs) : bool :=
-  cmeta_eqb (o_meta a) (o_meta b) && list_eqb hobs_eqb (o_heights a) (o_heights b)
+  cmeta_eqb (o_meta a) (o_meta b) && cmeta_eqb (o_stored a) (o_stored b)
+  && list_eqb hobs_eqb (o_heights a) (o_heights b)
   && list_eqb (res_eqb block_eqb) (o_hashes a) (o_hashes b) && list_eqb tobs_eqb (o_txs a) (o_txs b).
 
 (** * The property predicates on observations *)
@@ -473,12 +524,12 @@ Fixpoint forall2b {A B} (f : A -> B -> bool) (l1 : list A) (l2 : list B) : bool 
     to t nothing above t is returned and everything up to t is unchanged" because the spec
     after an accepted rollback is [firstn t sp] *)
 Definition agrees (U : universe) (sp : spec) (o : obs) : Prop :=
-  o_meta o = spec_meta sp /\
+  o_meta o = spec_meta sp /\ o_stored o = spec_meta sp /\
   o_heights o = map (expected_h sp) (nseq (S (u_kh U))) /\
   o_hashes o = map (expected_x sp) (u_hashes U) /\
   Forall2 (tx_good sp) (u_txs U) (o_txs o).
 Definition agrees_b (U : universe) (sp : spec) (o : obs) : bool :=
-  cmeta_eqb (o_meta o) (spec_meta sp)
+  cmeta_eqb (o_meta o) (spec_meta sp) && cmeta_eqb (o_stored o) (spec_meta sp)
   && list_eqb hobs_eqb (o_heights o) (map (expected_h sp) (nseq (S (u_kh U))))
   && list_eqb (res_eqb block_eqb) (o_hashes o) (map (expected_x sp) (u_hashes U))
   && forall2b (tx_good_b sp) (u_txs U) (o_txs o).
@@ -582,6 +633,7 @@ Definition tbl_nonzero_b {K} (tbl : list (K * N)) : bool := forallb (fun p => ne
 (** * The judge *)
 Record case := mkCase {
   c_full : bool;
+  c_ordered_store : bool;   (* leveldb_type of the run: normal (true) / multi (false) *)
   c_strict : bool;     (* the blocks were sealed by the REAL executor: an ill-formed block is itself a violation *)
   c_univ : universe; c_ops : list op;
   c_trace : list (N * obs);                (* implementation: result code and observation after every step *)
@@ -642,8 +694,10 @@ Fixpoint first_ok (vs : list verdict) : verdict :=
   | [v] => v
   | v :: r => if fst v =? 0 then v else first_ok r
   end.
+Definition with_store (ordered : bool) (cfg : Defects) : Defects :=
+  mkDefects (d_rb_heightkey cfg) (d_bhash_codec cfg) (d_meta_del_first cfg) ordered.
 Definition judge_model_with (cfgs : list Defects) (c : case) : verdict :=
-  first_ok (map (fun cfg => model_trace cfg (c_full c) (c_univ c) (c_ops c) (c_trace c) cl_empty 0) cfgs).
+  first_ok (map (fun cfg => model_trace (with_store (c_ordered_store c) cfg) (c_full c) (c_univ c) (c_ops c) (c_trace c) cl_empty 0) cfgs).
 Definition judge_model (c : case) : verdict := judge_model_with cfgs_allowed c.
 (** the combined verdict of BUILDING.md: property on the implementation trace first *)
 Definition judge_chain (c : case) : verdict :=
